@@ -12,6 +12,9 @@ import PV.C09.LexShift   -- lexer model: PV.C09.lex_shift, lex_shift_of_fit (the
   `parser/src/parser.rs` and `parser/src/gen/parse.rs` are wired to them — which is what the property
   is about.  The lexer-level statement `lex k src = shift k (lex 0 src)` is `PV.C09.lex_shift`
   (lean/PV/C09/LexShift.lean, owned by the lexer model); here it appears as hypothesis `ShiftEnv.lex`.
+
+  The model is the code AFTER the three repairs 9f7255d (`not_before`), e8203b1 (start marker at the
+  first token), 582d03b (trivia filter inside `parse_filtered_tokens`).
 -/
 namespace PV.C09
 open Spec
@@ -20,49 +23,13 @@ variable {σ : Sig}
 /-! ## 1. All entry points are views of one parser -/
 
 /-- Every `Parse::parse_tokens` returns the documented part of the tree that the one parser builds
-    for the same tokens in the target's mode — for ANY parser and any well-formed table row. -/
+    for the same tokens in the target's mode — for ANY parser, any build configuration, any tokens
+    (comments included: `parse_filtered_tokens` is the free `parse_tokens`) and any well-formed table row. -/
 theorem entry_points_agree (env : Env σ) (ty : Ty) (hwf : ty.WF) (toks : List σ.T) :
-    Agrees env.view ty.target (parseFiltered env ty.target.mode toks) (ty.parseTokens env toks) := by
-  cases ty with
-  | typed p => exact typed_agree env p hwf toks
-  | stmt =>
-    simp only [Agrees, Ty.target, Target.mode, Ty.parseTokens, stmtTokens, modModuleTokens]
-    generalize parseFiltered env _ toks = top
-    rcases top with (m | ⟨k, o⟩ | _)
-    · cases m with
-      | module m =>
-        rcases hb : m.body with _ | ⟨s1, _ | ⟨s2, tl⟩⟩ <;> simp [Res.map, Res.bind, Res.isErr, hb]
-      | _ => simp [Res.map, Res.bind]
-    · simp [Res.map, Res.bind]
-    · simp [Res.map, Res.bind]
-  | identifier =>
-    simp only [Agrees, Ty.target, Target.mode, Ty.parseTokens, identifierTokens, exprTokens, modExpressionTokens]
-    generalize parseFiltered env _ toks = top
-    rcases top with (m | ⟨k, o⟩ | _)
-    · cases m with
-      | expression m =>
-        rcases hn : env.view.nameId m.body with _ | i <;> simp [Res.map, Res.bind, hn]
-      | _ => simp [Res.map, Res.bind]
-    · simp [Res.map, Res.bind]
-    · simp [Res.map, Res.bind]
-  | constant =>
-    simp only [Agrees, Ty.target, Target.mode, Ty.parseTokens, constantTokens, exprTokens, modExpressionTokens]
-    generalize parseFiltered env _ toks = top
-    rcases top with (m | ⟨k, o⟩ | _)
-    · cases m with
-      | expression m =>
-        rcases hn : env.view.constValue m.body with _ | i <;> simp [Res.map, Res.bind, hn]
-      | _ => simp [Res.map, Res.bind]
-    · simp [Res.map, Res.bind]
-    · simp [Res.map, Res.bind]
-  | _ =>
-    simp only [Agrees, Ty.target, Target.mode, Ty.parseTokens, suiteTokens, exprTokens, modModuleTokens,
-      modExpressionTokens, modInteractiveTokens]
-    generalize parseFiltered env _ toks = top
-    rcases top with (m | ⟨k, o⟩ | _)
-    · cases m <;> simp [Res.map, Res.bind]
-    · simp [Res.map, Res.bind]
-    · simp [Res.map, Res.bind]
+    Agrees env.view ty.target (freeParseTokens env ty.target.mode toks) (ty.parseTokens env toks) := by
+  unfold freeParseTokens
+  rw [parseTokens_eq_ofTop, parseMode_eq_target_mode ty hwf]
+  exact ofTop_agrees env ty hwf _
 
 /-- The regenerated table of `parser/src/gen/parse.rs`: every generated parser unwraps exactly the
     variant that carries its own type, through that variant's enum, and reports `InvalidToken` at the
@@ -78,21 +45,25 @@ theorem typed_parsers_cover :
 /-- hence each of the 55 generated parsers returns the payload of "its" variant of the one tree -/
 theorem generated_parsers_agree (env : Env σ) (p : TypedParser) (hp : p ∈ Gen.typedParsers) (toks : List σ.T) :
     Agrees env.view (.variant p.typeEnum p.typeIdx)
-      (parseFiltered env (Target.mode (.variant p.typeEnum p.typeIdx)) toks)
+      (freeParseTokens env (Target.mode (.variant p.typeEnum p.typeIdx)) toks)
       ((Ty.typed p).parseTokens env toks) :=
   entry_points_agree env (.typed p) (typed_parsers_wf p hp) toks
 
-/-- `T::parse_starts_at` (hence `parse`, `parse_without_path`) is the same view of the free function
-    `parse_starts_at` run in the target's mode at the same offset. -/
-theorem typed_views_of_free_parse (env : Env σ) (ty : Ty) (hwf : ty.WF) (src : σ.Src) (k : Nat) :
+/-- `T::parse_starts_at` is the same view of the free function `parse_starts_at` run in the target's
+    mode at the same offset.  Both clamp their error offset with `not_before`; the hypothesis says that
+    the node a typed parser reports `InvalidToken` at does not start before the start offset (so that
+    the clamp leaves "at the node start" alone) — true whenever the lexer counts from `k`. -/
+theorem typed_views_of_free_parse (env : Env σ) (ty : Ty) (hwf : ty.WF) (src : σ.Src) (k : Nat)
+    (hs : StartsNotBefore env.view k (freeParseTokens env ty.target.mode (env.lexTop ty.target.mode k src))) :
     Agrees env.view ty.target (freeParseStartsAt env ty.target.mode src k) (ty.parseStartsAt env src k) := by
-  unfold freeParseStartsAt freeParseTokens Ty.parseStartsAt Ty.lexStartsAt
+  unfold freeParseStartsAt Ty.parseStartsAt Ty.lexStartsAt
   rw [lexMode_eq_target_mode ty hwf]
-  exact entry_points_agree env ty hwf _
+  exact agrees_notBefore _ _ _ _ _ (entry_points_agree env ty hwf _) hs
 
-/-- the free `parse_tokens` applied to the output of the free lexer IS `parse_starts_at` (both filter) -/
-theorem free_parse_tokens_of_lex (env : Env σ) (m : Mode) (src : σ.Src) (k : Nat) :
-    freeParseTokens env m (env.lexTop m k src) = freeParseStartsAt env m src k := rfl
+/-- … and unconditionally for `T::parse` / `T::parse_without_path` against `parse` (offset 0) -/
+theorem typed_parse_views_of_free_parse (env : Env σ) (ty : Ty) (hwf : ty.WF) (src : σ.Src) :
+    Agrees env.view ty.target (freeParse env ty.target.mode src) (ty.parse env src) :=
+  typed_views_of_free_parse env ty hwf src 0 ⟨fun _ _ => Nat.zero_le _, fun _ _ _ _ => Nat.zero_le _⟩
 
 /-- deprecated `parse_program` is the module body of `parse(.., Mode::Module, ..)` -/
 theorem parseProgram_agrees (env : Env σ) (src : σ.Src) :
@@ -109,131 +80,99 @@ theorem parseExpression_eq (env : Env σ) (src : σ.Src) (k : Nat) :
     parseExpression env src = Ty.expr.parse env src ∧
     parseExpressionStartsAt env src k = Ty.expr.parseStartsAt env src k := ⟨rfl, rfl⟩
 
-/-! ### parsing a pre-lexed token stream equals parsing the text -/
+/-! ### parsing a pre-lexed token stream equals parsing the text
 
-/-- full statement for the trait method `T::parse_tokens` fed with `T::lex_starts_at` -/
-def parse_tokens_of_lex_full : Prop :=
-  ∀ (σ : Sig) (env : Env σ) (ty : Ty) (src : σ.Src) (k : Nat),
-    ty.parseTokens env (ty.lexStartsAt env src k) = ty.parseStartsAt env src k
+  `parse_tokens` is not told the start offset, `parse_starts_at` is and lifts an error offset below it
+  (`not_before`).  So the two are equal up to that clamp, and exactly equal at offset 0 or whenever
+  the error offset of `parse_tokens` is not below `k` (the only way it can be: no token gave the
+  marker a position, or `Stmt` found no statement).  No condition on `full-lexer` or on comments. -/
 
-/-- it holds without `full-lexer`, and with it whenever the text has no comment / blank-line token -/
-theorem parse_tokens_of_lex_partial (env : Env σ) (ty : Ty) (src : σ.Src) (k : Nat)
-    (h : env.fullLexer = false ∨ ∀ t ∈ ty.lexStartsAt env src k, env.isTrivia t = false) :
-    ty.parseTokens env (ty.lexStartsAt env src k) = ty.parseStartsAt env src k := by
-  unfold Ty.parseStartsAt
-  rw [filterTrivia_id env _ h]
+/-- the free `parse_tokens` applied to the output of the free lexer vs. `parse_starts_at` / `parse` -/
+theorem free_parse_tokens_of_lex (env : Env σ) (m : Mode) (src : σ.Src) (k : Nat) :
+    freeParseStartsAt env m src k = notBefore k (freeParseTokens env m (env.lexTop m k src)) ∧
+    ((∀ kind o, freeParseTokens env m (env.lexTop m k src) = .err kind o → k ≤ o) →
+      freeParseTokens env m (env.lexTop m k src) = freeParseStartsAt env m src k) ∧
+    freeParseTokens env m (env.lexTop m 0 src) = freeParse env m src :=
+  ⟨rfl, fun h => (notBefore_id k _ h).symm, (notBefore_zero _).symm⟩
 
-/-- witness environment: tokens are booleans (`true` = a comment), the parser rejects comments -/
-def unfilteredWitness : Env ⟨Unit, Bool, Unit, Unit, Unit, Unit, Unit, Unit, Unit⟩ where
+/-- the trait method `T::parse_tokens` fed with `T::lex_starts_at` vs. `T::parse_starts_at` / `T::parse`,
+    in every build configuration (replaces the refuted `parse_tokens_of_lex_full` of the unrepaired code) -/
+theorem parse_tokens_of_lex (env : Env σ) (ty : Ty) (src : σ.Src) (k : Nat) :
+    ty.parseStartsAt env src k = notBefore k (ty.parseTokens env (ty.lexStartsAt env src k)) ∧
+    ((∀ kind o, ty.parseTokens env (ty.lexStartsAt env src k) = .err kind o → k ≤ o) →
+      ty.parseTokens env (ty.lexStartsAt env src k) = ty.parseStartsAt env src k) ∧
+    ty.parseTokens env (ty.lexStartsAt env src 0) = ty.parse env src :=
+  ⟨rfl, fun h => (notBefore_id k _ h).symm, (notBefore_zero _).symm⟩
+
+/-- whether the caller has already dropped the comment / non-logical-newline tokens makes no difference
+    to any `parse_tokens` (582d03b: the filter lives in `parse_filtered_tokens`) -/
+theorem parse_tokens_filter_invariant (env : Env σ) (ty : Ty) (m : Mode) (toks : List σ.T) :
+    ty.parseTokens env (filterTrivia env toks) = ty.parseTokens env toks ∧
+    freeParseTokens env m (filterTrivia env toks) = freeParseTokens env m toks := by
+  refine ⟨?_, parseFiltered_filter env m toks⟩
+  rw [parseTokens_eq_ofTop, parseTokens_eq_ofTop, parseFiltered_filter]
+
+/-- witness environment with `full-lexer`: tokens are booleans (`true` = a comment, position 7),
+    the lexer yields a comment then a token, the parser rejects comments -/
+def triviaWitness : Env ⟨Unit, Bool, Nat, Unit, Unit, Unit, Unit, Unit, Unit⟩ where
   fullLexer := true
   isTrivia := id
+  tokStart := fun t => some (if t then 7 else 9)
   marker := fun _ _ _ => false
-  lexTop := fun _ _ _ => [true]
-  parseTop := fun _ toks => if toks.any id then .err "UnrecognizedToken" 0 else .ok (.module ⟨(), [], ()⟩)
+  lexTop := fun _ _ _ => [true, false]
+  parseTop := fun _ toks => if toks.any id then .err "UnrecognizedToken" 0 else .ok (.module ⟨toks.length, [], ()⟩)
   view := ⟨fun _ => 0, fun _ => 0, fun _ => 0, id, fun _ => 0, fun _ => 0, fun _ => 0, id, fun _ => none, fun _ => none⟩
 
-/-- … and fails with `full-lexer` (the trait's `parse_tokens` does not filter; the free one does) -/
-theorem parse_tokens_of_lex_fails : ¬ parse_tokens_of_lex_full := by
-  intro h
-  have := h _ unfilteredWitness .modModule () 0
-  simp [Ty.parseTokens, Ty.parseStartsAt, Ty.lexStartsAt, modModuleTokens, parseFiltered, filterTrivia,
-    unfilteredWitness, Res.map, Res.bind] at this
+/-- non-vacuity: the former counterexample (`ModModule::parse_tokens` on a stream with a comment, with
+    `full-lexer`) is now accepted, with marker + one token reaching the parser -/
+example : (Ty.modModule.parseTokens triviaWitness (Ty.modModule.lexStartsAt triviaWitness () 3) : Res (Out _)) =
+    .ok (.modModule ⟨2, [], ()⟩) ∧
+    Ty.modModule.parseStartsAt triviaWitness () 3 = .ok (.modModule ⟨2, [], ()⟩) := ⟨rfl, rfl⟩
 
 /-! ## 2. Start offsets only translate positions -/
 
-/-- `parse_filtered_tokens` commutes with translation when the marker's range is irrelevant -/
-theorem parseFiltered_shift_partial (env : Env σ) (sh : Shift σ) (k : Nat) (h : ShiftEnv env sh k)
-    (hm : MarkerIrrelevant env) (m : Mode) (toks : List σ.T) :
-    parseFiltered env m (toks.map (sh.tok k)) = shiftRes k (shiftMod sh k) (parseFiltered env m toks) := by
-  unfold parseFiltered
-  rw [← h.parse, List.map_cons, h.marker, hm m (0 + k) (0 + k)]
+/-- `parse_filtered_tokens` (= the free `parse_tokens`) commutes with translation of the token stream
+    whenever the first (non-trivia) item has a position — with NO assumption on what the parser does
+    with the marker: the marker follows the first token (e8203b1). -/
+theorem parseFiltered_shift (env : Env σ) (sh : Shift σ) (k : Nat) (h : ShiftEnv env sh k)
+    (m : Mode) (toks : List σ.T) (hh : ¬ Headless env (filterTrivia env toks)) :
+    freeParseTokens env m (toks.map (sh.tok k)) = shiftRes k (shiftMod sh k) (freeParseTokens env m toks) :=
+  parseFiltered_shift_of_head env sh k h m toks hh
 
-theorem parseTokens_shift_partial (env : Env σ) (sh : Shift σ) (k : Nat) (h : ShiftEnv env sh k)
-    (hm : MarkerIrrelevant env) (laws : ShiftLaws env.view sh) (ty : Ty) (hwf : ty.WF)
-    (toks : List σ.T) (hne : StmtNonEmpty env ty toks) :
-    ty.parseTokens env (toks.map (sh.tok k)) = shiftRes k (Spec.shiftOut sh k) (ty.parseTokens env toks) := by
-  have hp := fun m => parseFiltered_shift_partial env sh k h hm m toks
+theorem usesStmt_parseMode (ty : Ty) (h : ty.usesStmt = true) : ty.parseMode = .module := by
   cases ty with
   | typed p =>
-    obtain ⟨h1, h2, h3, h4, h5, h6⟩ := hwf
     rcases p with ⟨te, ti, lv, pv, me, mi, eit, eo⟩
-    simp only at h1 h2 h3 h4 h5 h6
-    subst h1 h2 h3 h4 h5 h6
-    cases me
-    · simp only [Ty.parseTokens, typedTokens, stmtTokens, modModuleTokens, errKindOf, errOffOf, hp]
-      have hne' := hne (by simp [Ty.usesStmt])
-      revert hne'
-      generalize parseFiltered env _ toks = top
-      intro hne'
-      rcases top with (m | ⟨k, o⟩ | _)
-      · cases m with
-        | module m =>
-          have := hne' m rfl
-          rcases hb : m.body with _ | ⟨s1, _ | ⟨s2, tl⟩⟩
-          · exact absurd hb this
-          · by_cases hk : env.view.stmtKind s1 = mi <;>
-              simp [Res.map, Res.bind, shiftRes, shiftMod, Spec.shiftOut, hb, hk, laws.stmtKind, laws.stmtStart, laws.stmtPayload]
-          · simp [Res.map, Res.bind, shiftRes, shiftMod, hb, laws.stmtStart]
-        | _ => simp [Res.map, Res.bind, shiftRes, shiftMod]
-      · simp [Res.map, Res.bind, shiftRes]
-      · simp [Res.map, Res.bind, shiftRes]
-    · simp only [Ty.parseTokens, typedTokens, exprTokens, modExpressionTokens, errKindOf, errOffOf, hp]
-      generalize parseFiltered env _ toks = top
-      rcases top with (m | ⟨k, o⟩ | _)
-      · cases m with
-        | expression m =>
-          by_cases hk : env.view.exprKind m.body = mi <;>
-            simp [Res.map, Res.bind, shiftRes, shiftMod, Spec.shiftOut, hk, laws.exprKind, laws.exprStart, laws.exprPayload]
-        | _ => simp [Res.map, Res.bind, shiftRes, shiftMod]
-      · simp [Res.map, Res.bind, shiftRes]
-      · simp [Res.map, Res.bind, shiftRes]
-  | stmt =>
-    simp only [Ty.parseTokens, stmtTokens, modModuleTokens, hp]
-    have hne' := hne (by simp [Ty.usesStmt])
-    revert hne'
-    generalize parseFiltered env _ toks = top
-    intro hne'
-    rcases top with (m | ⟨k, o⟩ | _)
-    · cases m with
-      | module m =>
-        have := hne' m rfl
-        rcases hb : m.body with _ | ⟨s1, _ | ⟨s2, tl⟩⟩
-        · exact absurd hb this
-        · simp [Res.map, Res.bind, shiftRes, shiftMod, Spec.shiftOut, hb]
-        · simp [Res.map, Res.bind, shiftRes, shiftMod, hb, laws.stmtStart]
-      | _ => simp [Res.map, Res.bind, shiftRes, shiftMod]
-    · simp [Res.map, Res.bind, shiftRes]
-    · simp [Res.map, Res.bind, shiftRes]
-  | identifier =>
-    simp only [Ty.parseTokens, identifierTokens, exprTokens, modExpressionTokens, hp]
-    generalize parseFiltered env _ toks = top
-    rcases top with (m | ⟨k, o⟩ | _)
-    · cases m with
-      | expression m =>
-        rcases hn : env.view.nameId m.body with _ | i <;>
-          simp [Res.map, Res.bind, shiftRes, shiftMod, Spec.shiftOut, hn, laws.nameId, laws.exprStart]
-      | _ => simp [Res.map, Res.bind, shiftRes, shiftMod]
-    · simp [Res.map, Res.bind, shiftRes]
-    · simp [Res.map, Res.bind, shiftRes]
-  | constant =>
-    simp only [Ty.parseTokens, constantTokens, exprTokens, modExpressionTokens, hp]
-    generalize parseFiltered env _ toks = top
-    rcases top with (m | ⟨k, o⟩ | _)
-    · cases m with
-      | expression m =>
-        rcases hn : env.view.constValue m.body with _ | i <;>
-          simp [Res.map, Res.bind, shiftRes, shiftMod, Spec.shiftOut, hn, laws.constValue, laws.exprStart]
-      | _ => simp [Res.map, Res.bind, shiftRes, shiftMod]
-    · simp [Res.map, Res.bind, shiftRes]
-    · simp [Res.map, Res.bind, shiftRes]
-  | _ =>
-    simp only [Ty.parseTokens, suiteTokens, exprTokens, modModuleTokens,
-      modExpressionTokens, modInteractiveTokens, hp]
-    generalize parseFiltered env _ toks = top
-    rcases top with (m | ⟨k, o⟩ | _)
-    · cases m <;> simp [Res.map, Res.bind, shiftRes, shiftMod, Spec.shiftOut]
-    · simp [Res.map, Res.bind, shiftRes]
-    · simp [Res.map, Res.bind, shiftRes]
+    cases pv <;> simp [Ty.usesStmt] at h ⊢ <;> rfl
+  | stmt => rfl
+  | _ => simp [Ty.usesStmt] at h
+
+/-- `T::parse_tokens` on a translated stream.  `parse_tokens` has no offset argument, so two things
+    cannot follow the tokens: the marker in front of a stream without a positioned first item
+    (hypothesis `hh`) and the `Eof` that `Stmt` reports at `TextSize::default()` for zero statements
+    (hypothesis `StmtNonEmpty`).  Both are genuinely needed here; neither is needed for
+    `parse_starts_at` (`entry_shift_partial`). -/
+theorem parseTokens_shift_partial (env : Env σ) (sh : Shift σ) (k : Nat) (h : ShiftEnv env sh k)
+    (laws : ShiftLaws env.view sh) (ty : Ty) (hwf : ty.WF) (toks : List σ.T)
+    (hh : ¬ Headless env (filterTrivia env toks)) (hne : StmtNonEmpty env ty toks) :
+    ty.parseTokens env (toks.map (sh.tok k)) = shiftRes k (Spec.shiftOut sh k) (ty.parseTokens env toks) := by
+  rw [parseTokens_eq_ofTop, parseTokens_eq_ofTop, parseFiltered_shift_of_head env sh k h _ toks hh]
+  apply ofTop_shift_exact env sh k laws ty hwf
+  intro hu m hm
+  rw [usesStmt_parseMode ty hu] at hm
+  exact hne hu m hm
+
+/-- … and after the clamp of `parse_starts_at` on every stream -/
+theorem parseTokens_shift_clamped (env : Env σ) (sh : Shift σ) (k : Nat) (h : ShiftEnv env sh k)
+    (laws : ShiftLaws env.view sh) (ty : Ty) (hwf : ty.WF) (toks : List σ.T)
+    (hm : Headless env (filterTrivia env toks) → HeadlessMarkerIrrelevant env k) :
+    notBefore k (ty.parseTokens env (toks.map (sh.tok k))) =
+      shiftRes k (Spec.shiftOut sh k) (ty.parseTokens env toks) := by
+  rw [parseTokens_eq_ofTop, parseTokens_eq_ofTop]
+  have c := parseFiltered_shift_clamped env sh k h ty.parseMode toks hm
+  rw [← notBefore_shiftRes] at c
+  rw [ofTop_clamp_congr env ty k _ _ c]
+  exact ofTop_shift env sh k laws ty hwf _
 
 /-- The full statement: whenever lexer and LALRPOP parser are translation-equivariant, so is every
     `T::parse_starts_at`. -/
@@ -242,27 +181,42 @@ def entry_shift_full : Prop :=
     ∀ (ty : Ty), ty.WF → ∀ (src : σ.Src),
       ty.parseStartsAt env src k = shiftRes k (Spec.shiftOut sh k) (ty.parseStartsAt env src 0)
 
-/-- What holds of the code as it is: translation invariance of every `T::parse_starts_at`, PROVIDED the
-    start marker's `0..0` range is not observable and (for the parsers going through `Stmt`) the text
-    has at least one statement. -/
+/-- Translation invariance of every `T::parse_starts_at` — for every text, with or without statements,
+    tokens, comments.  The only thing still asked about the marker: IF the text has no positioned
+    first token (token-less text, or a lexical error right at its start), the marker's position may
+    change at most an error offset below `k` (`HeadlessMarkerIrrelevant`). -/
 theorem entry_shift_partial (env : Env σ) (sh : Shift σ) (k : Nat) (h : ShiftEnv env sh k)
-    (hm : MarkerIrrelevant env) (laws : ShiftLaws env.view sh) (ty : Ty) (hwf : ty.WF) (src : σ.Src)
-    (hne : StmtNonEmpty env ty (filterTrivia env (ty.lexStartsAt env src 0))) :
+    (laws : ShiftLaws env.view sh) (ty : Ty) (hwf : ty.WF) (src : σ.Src)
+    (hm : Headless env (filterTrivia env (ty.lexStartsAt env src 0)) → HeadlessMarkerIrrelevant env k) :
     ty.parseStartsAt env src k = shiftRes k (Spec.shiftOut sh k) (ty.parseStartsAt env src 0) := by
   unfold Ty.parseStartsAt
   have : ty.lexStartsAt env src k = (ty.lexStartsAt env src 0).map (sh.tok k) := h.lex _ _
-  rw [this, filterTrivia_shift env sh k h]
-  exact parseTokens_shift_partial env sh k h hm laws ty hwf _ hne
+  rw [this, notBefore_zero]
+  exact parseTokens_shift_clamped env sh k h laws ty hwf _ hm
 
-/-- the same for the free functions `parse_starts_at` / `parse_tokens ∘ lex_starts_at` -/
+/-- corollary: a text whose first (non-trivia) token has a position translates with NO assumption on the
+    marker at all -/
+theorem entry_shift_of_first_token (env : Env σ) (sh : Shift σ) (k : Nat) (h : ShiftEnv env sh k)
+    (laws : ShiftLaws env.view sh) (ty : Ty) (hwf : ty.WF) (src : σ.Src)
+    (hh : ¬ Headless env (filterTrivia env (ty.lexStartsAt env src 0))) :
+    ty.parseStartsAt env src k = shiftRes k (Spec.shiftOut sh k) (ty.parseStartsAt env src 0) :=
+  entry_shift_partial env sh k h laws ty hwf src (fun hd => absurd hd hh)
+
+/-- the same for the free function `parse_starts_at` -/
 theorem free_shift_partial (env : Env σ) (sh : Shift σ) (k : Nat) (h : ShiftEnv env sh k)
-    (hm : MarkerIrrelevant env) (m : Mode) (src : σ.Src) :
+    (m : Mode) (src : σ.Src)
+    (hm : Headless env (filterTrivia env (env.lexTop m 0 src)) → HeadlessMarkerIrrelevant env k) :
     freeParseStartsAt env m src k = shiftRes k (shiftMod sh k) (freeParseStartsAt env m src 0) := by
   unfold freeParseStartsAt freeParseTokens
-  rw [h.lex, filterTrivia_shift env sh k h]
-  exact parseFiltered_shift_partial env sh k h hm m _
+  rw [h.lex, notBefore_zero]
+  exact parseFiltered_shift_clamped env sh k h m _ hm
 
-/-! ### the two places where the code does not translate -/
+theorem free_shift_of_first_token (env : Env σ) (sh : Shift σ) (k : Nat) (h : ShiftEnv env sh k)
+    (m : Mode) (src : σ.Src) (hh : ¬ Headless env (filterTrivia env (env.lexTop m 0 src))) :
+    freeParseStartsAt env m src k = shiftRes k (shiftMod sh k) (freeParseStartsAt env m src 0) :=
+  free_shift_partial env sh k h m src (fun hd => absurd hd hh)
+
+/-! ### toy instances: non-vacuity, the repaired witnesses, and the one place left -/
 
 /-- toy instance: a token is its range; source `false` is blank (no tokens), `true` is one token `0..1`;
     the parser builds a module whose range runs from the first symbol (the marker) to the end of the
@@ -272,6 +226,7 @@ abbrev toySig : Sig := ⟨Bool, Nat × Nat, Nat × Nat, Nat, Nat, Unit, Unit, Na
 def toyEnv (blankIsModule : Bool) : Env toySig where
   fullLexer := false
   isTrivia := fun _ => false
+  tokStart := fun t => some t.1
   marker := fun _ a b => (a, b)
   lexTop := fun _ k src => if src then [(k, k + 1)] else []
   parseTop := fun _ toks =>
@@ -285,6 +240,7 @@ def toyEnv (blankIsModule : Bool) : Env toySig where
 def toyEnvNoRange : Env ⟨Bool, Nat × Nat, Unit, Nat, Nat, Unit, Unit, Nat, Unit⟩ where
   fullLexer := false
   isTrivia := fun _ => false
+  tokStart := fun t => some t.1
   marker := fun _ a b => (a, b)
   lexTop := fun _ k src => if src then [(k, k + 1)] else []
   parseTop := fun _ toks =>
@@ -309,32 +265,13 @@ theorem toyNoRange_shiftEnv (k : Nat) : ShiftEnv toyEnvNoRange toyShiftNoRange k
       simp [toyEnvNoRange, toyShiftNoRange, shiftRes, shiftMod, Function.comp_def]
   marker := by intro m a b; rfl
   trivia := by intro t; rfl
+  tokStart := by intro t; rfl
 
 theorem toyNoRange_laws : ShiftLaws toyEnvNoRange.view toyShiftNoRange := by
   constructor <;> intros <;> rfl
 
-theorem toyNoRange_markerIrrelevant : MarkerIrrelevant toyEnvNoRange := by
-  intro m a b toks; rfl
-
-/-- **Finding (Stmt)**: with a lexer and parser that translate perfectly and a marker range that
-    cannot be seen, `Stmt::parse_starts_at` of a blank text still reports offset 0 instead of `k`:
-    the full statement is false of the model (and of the code: `Stmt::parse_starts_at("", _, 100)`). -/
-theorem entry_shift_fails : ¬ entry_shift_full := by
-  intro h
-  have := h _ toyEnvNoRange toyShiftNoRange 5 (toyNoRange_shiftEnv 5) toyNoRange_laws .stmt trivial false
-  simp [Ty.parseStartsAt, Ty.lexStartsAt, Ty.parseTokens, stmtTokens, modModuleTokens, parseFiltered,
-    filterTrivia, toyEnvNoRange, Res.map, Res.bind, shiftRes] at this
-
-/-- non-vacuity of `entry_shift_partial`: on the same instance and a text with one statement all
-    hypotheses hold and the statement's position moves from 0 to 5 -/
-example : (Ty.stmt.parseStartsAt toyEnvNoRange true 5 : Res (Out _)) = .ok (.stmt 5) ∧
-    (Ty.stmt.parseStartsAt toyEnvNoRange true 0 : Res (Out _)) = .ok (.stmt 0) ∧
-    StmtNonEmpty toyEnvNoRange .stmt (filterTrivia toyEnvNoRange (Ty.stmt.lexStartsAt toyEnvNoRange true 0)) := by
-  refine ⟨rfl, rfl, ?_⟩
-  intro _ m hm
-  simp [parseFiltered, filterTrivia, Ty.lexStartsAt, toyEnvNoRange] at hm
-  subst hm
-  simp
+theorem toyNoRange_markerIrrelevant (k : Nat) : HeadlessMarkerIrrelevant toyEnvNoRange k := by
+  intro m toks _; rfl
 
 theorem toy_shiftEnv (b : Bool) (k : Nat) : ShiftEnv (toyEnv b) toyShift k where
   lex := by intro m src; cases src <;> simp [toyEnv, toyShift, Nat.add_comm]
@@ -346,21 +283,69 @@ theorem toy_shiftEnv (b : Bool) (k : Nat) : ShiftEnv (toyEnv b) toyShift k where
     · simp [toyEnv, toyShift, shiftRes, shiftMod]
   marker := by intro m a b; rfl
   trivia := by intro t; rfl
+  tokStart := by intro t; rfl
 
-/-- **Finding (marker, range)**: the lexer and the parser translate, yet `parse_starts_at` does not:
-    the module range starts at the marker's `0`, not at `k`
-    (code: `parse_starts_at("x\n", Mode::Module, _, 100)` with `all-nodes-with-ranges` gives `0..102`). -/
-theorem marker_range_breaks_module_range :
-    freeParseStartsAt (toyEnv true) .module true 5 = .ok (.module ⟨(0, 6), [], ()⟩) ∧
-    shiftRes 5 (shiftMod toyShift 5) (freeParseStartsAt (toyEnv true) .module true 0) = .ok (.module ⟨(5, 6), [], ()⟩) := by
-  constructor <;> rfl
+theorem toy_laws (b : Bool) : ShiftLaws (toyEnv b).view toyShift := by
+  constructor <;> intros <;> rfl
 
-/-- **Finding (marker, error offset)**: a text without tokens is rejected at the marker's end, offset
-    0, whatever the start offset (code: `parse_starts_at("", Mode::Expression, _, 100)` = `Eof` at 0). -/
-theorem marker_range_breaks_eof_offset :
-    freeParseStartsAt (toyEnv false) .expression false 5 = .err "Eof" 0 ∧
-    shiftRes 5 (shiftMod toyShift 5) (freeParseStartsAt (toyEnv false) .expression false 0) = .err "Eof" 5 := by
-  constructor <;> rfl
+/-- the parser that reports end of input at the marker's end satisfies the remaining marker hypothesis
+    (this is what `not_before` is for) -/
+theorem toy_markerIrrelevant (k : Nat) : HeadlessMarkerIrrelevant (toyEnv false) k := by
+  intro m toks hd
+  cases toks with
+  | nil => simp [toyEnv, notBefore]
+  | cons t rest => simp [Headless, toyEnv] at hd
+
+/-- non-vacuity of `entry_shift_partial` and the former `Stmt` finding, repaired: on an instance with a
+    perfectly translating lexer and parser, `Stmt::parse_starts_at` of a BLANK text (all hypotheses hold,
+    the stream is head-less) reports `Eof` at the start offset, and a text with one statement moves. -/
+example : (Ty.stmt.parseStartsAt toyEnvNoRange false 5 : Res (Out _)) = .err "Eof" 5 ∧
+    (Ty.stmt.parseStartsAt toyEnvNoRange false 0 : Res (Out _)) = .err "Eof" 0 ∧
+    (Ty.stmt.parseStartsAt toyEnvNoRange true 5 : Res (Out _)) = .ok (.stmt 5) ∧
+    (Ty.stmt.parseStartsAt toyEnvNoRange true 0 : Res (Out _)) = .ok (.stmt 0) ∧
+    Headless toyEnvNoRange (filterTrivia toyEnvNoRange (Ty.stmt.lexStartsAt toyEnvNoRange false 0)) ∧
+    ¬ Headless toyEnvNoRange (filterTrivia toyEnvNoRange (Ty.stmt.lexStartsAt toyEnvNoRange true 0)) := by
+  refine ⟨rfl, rfl, rfl, rfl, ?_, ?_⟩ <;> decide
+
+/-- the former marker findings, repaired: the module range of a one-token text starts at `k` (the marker
+    sits at the first token), and a token-less text in a mode that rejects it reports `Eof` at `k` -/
+example :
+    freeParseStartsAt (toyEnv true) .module true 5 = .ok (.module ⟨(5, 6), [], ()⟩) ∧
+    shiftRes 5 (shiftMod toyShift 5) (freeParseStartsAt (toyEnv true) .module true 0) = .ok (.module ⟨(5, 6), [], ()⟩) ∧
+    freeParseStartsAt (toyEnv false) .expression false 5 = .err "Eof" 5 ∧
+    shiftRes 5 (shiftMod toyShift 5) (freeParseStartsAt (toyEnv false) .expression false 0) = .err "Eof" 5 :=
+  ⟨rfl, rfl, rfl, rfl⟩
+
+/-- non-vacuity of `parseTokens_shift_partial`: positioned head, one statement -/
+example : ¬ Headless toyEnvNoRange (filterTrivia toyEnvNoRange [(0, 1)]) ∧
+    StmtNonEmpty toyEnvNoRange .stmt [(0, 1)] ∧
+    (Ty.stmt.parseTokens toyEnvNoRange ([(0, 1)].map (toyShiftNoRange.tok 5)) : Res (Out _)) = .ok (.stmt 5) := by
+  refine ⟨by decide, ?_, rfl⟩
+  intro _ m hm
+  simp [parseFiltered, filterTrivia, markerStart, toyEnvNoRange] at hm
+  subst hm
+  simp
+
+/-- … and why it needs `StmtNonEmpty`: `Stmt::parse_tokens` is not told the offset; for a module
+    without statements it answers `Eof` at 0 whatever offset the caller lexed at -/
+example : (Ty.stmt.parseTokens toyEnvNoRange [] : Res (Out _)) = .err "Eof" 0 := rfl
+
+/-- **Remaining finding (token-less text, `all-nodes-with-ranges`)**: `entry_shift_full` — without the
+    marker hypothesis — is still false.  For a text without tokens the marker has no token to follow and
+    sits at `0..0`; a parser that puts the marker's range into the `Mod` node (the real one does with
+    `all-nodes-with-ranges`) then returns the range `0..0` at every start offset, and `not_before` only
+    repairs errors.  Code: `parse_starts_at("", Mode::Module, _, 100)` gives `Module { range: 0..0, .. }`. -/
+theorem entry_shift_fails : ¬ entry_shift_full := by
+  intro h
+  have := h _ (toyEnv true) toyShift 5 (toy_shiftEnv true 5) (toy_laws true) .modModule trivial false
+  simp [Ty.parseStartsAt, Ty.lexStartsAt, Ty.parseTokens, modModuleTokens, parseFiltered, markerStart,
+    filterTrivia, notBefore, toyEnv, toyShift, Res.map, Res.bind, shiftRes, Spec.shiftOut] at this
+
+/-- … and this is exactly the hypothesis of `entry_shift_partial` failing on that instance -/
+example : ¬ HeadlessMarkerIrrelevant (toyEnv true) 5 := by
+  intro h
+  have := h .module [] trivial
+  simp [toyEnv, notBefore] at this
 
 /-! ## 3. Mode names -/
 
@@ -380,5 +365,17 @@ example : ((Ty.typed ⟨.stmt, 0, .stmt, .stmt, .stmt, 0, true, .nodeStart⟩).p
 
 example : ((Ty.typed ⟨.stmt, 1, .stmt, .stmt, .stmt, 1, true, .nodeStart⟩).parseTokens toyEnvNoRange [(3, 4)]
     : Res (Out _)) = .err "InvalidToken" 3 := rfl
+
+/-- non-vacuity of `typed_views_of_free_parse`: `StartsNotBefore` holds for the toy lexer started at 5
+    (the single statement starts at 5) -/
+example : StartsNotBefore toyEnvNoRange.view 5
+    (freeParseTokens toyEnvNoRange .module (toyEnvNoRange.lexTop .module 5 true)) := by
+  refine ⟨fun m hm => ?_, fun m s hm hb => ?_⟩
+  · simp [freeParseTokens, parseFiltered, filterTrivia, markerStart, toyEnvNoRange] at hm
+  · simp [freeParseTokens, parseFiltered, filterTrivia, markerStart, toyEnvNoRange] at hm
+    subst hm
+    simp at hb
+    subst hb
+    simp [toyEnvNoRange]
 
 end PV.C09
